@@ -2525,10 +2525,19 @@ class Summarizer(Evaluator):
     def st_Continue(self, n, st):
         return [(st, ('continue',))]
 
+    _TRIVIAL = (ast.Assign, ast.Name, ast.Constant, ast.Pass, ast.Tuple,
+                ast.Load, ast.Store, ast.Expr)
+
+    def _may_raise_into(self, stmt, names, idx):
+        """Can an exception that a handler catches come out of `stmt` other
+        than by an explicit `raise` statement (which has its own path)?
+        Every statement that does more than bind names to names/constants
+        may.  (Which *package* exception a call can raise was tried on a
+        name-resolved call graph and given up: without receiver types every
+        operator reaches every dunder method of the package.)"""
+        return not all(isinstance(x, self._TRIVIAL) for x in ast.walk(stmt))
+
     def st_Try(self, n, st):
-        entry = st.copy()
-        body = self.block(n.body, st)
-        results = []
         handler_names = []
         for h in n.handlers:
             if h.type is None:
@@ -2537,12 +2546,47 @@ class Summarizer(Evaluator):
                 handler_names.append(tuple(src(e) for e in h.type.elts))
             else:
                 handler_names.append((src(h.type),))
+        idx = None
+        # the try body, statement by statement; before each statement that
+        # may raise into a handler, an edge from the state reached so far
+        live = [(st, None)]
+        edges = []
+        for stmt in n.body:
+            nxt = []
+            simple = not isinstance(stmt, (ast.If, ast.For, ast.While,
+                                           ast.With, ast.Try))
+            hits = [hi for hi, names in enumerate(handler_names)
+                    if self._may_raise_into(stmt, names, idx)]
+            for s, o in live:
+                if o is not None:
+                    nxt.append((s, o))
+                    continue
+                for hi in hits:
+                    e = s.copy()
+                    if not simple:
+                        # somewhere inside a compound statement: what it
+                        # assigns is unknown in the handler
+                        for node in ast.walk(stmt):
+                            if isinstance(node, ast.Name) and isinstance(
+                                    node.ctx, ast.Store):
+                                e.env[node.id] = ('maybe', node.id)
+                    edges.append((e, hi))
+                nxt.extend(self.stmt(stmt, s))
+            live = nxt
+            if len(live) > MAX_PATHS:
+                raise Unmodelled('more than %d paths' % MAX_PATHS)
+        body = live
+        results = []
         for s, o in body:
             if o is not None and o[0] == 'raise':
                 caught = False
                 for h, names in zip(n.handlers, handler_names):
-                    if o[1] in names or names == ('<bare>',) or \
-                            'Exception' in names or 'BaseException' in names:
+                    hit = o[1] in names or names == ('<bare>',) or \
+                        'Exception' in names or 'BaseException' in names
+                    if not hit and idx is not None and o[1] in \
+                            idx.exc_classes:
+                        hit = idx.catches(names, o[1])
+                    if hit:
                         s.trace.append(('caught', o[1], names, h.lineno))
                         if h.name:
                             s.env[h.name] = ('exc', o[1])
@@ -2556,18 +2600,12 @@ class Summarizer(Evaluator):
                     results.extend(self.block(n.orelse, s))
                 else:
                     results.append((s, o))
-        # implicit exception edges: something in the body raised h's type
-        for h, names in zip(n.handlers, handler_names):
-            s = entry.copy()
-            s.trace.append(('except', names, h.lineno))
-            # locals assigned in the try body are unknown in the handler
-            for node in ast.walk(ast.Module(body=n.body, type_ignores=[])):
-                if isinstance(node, ast.Name) and isinstance(node.ctx,
-                                                             ast.Store):
-                    s.env[node.id] = ('maybe', node.id)
+        for e, hi in edges:
+            h, names = n.handlers[hi], handler_names[hi]
+            e.trace.append(('except', names, h.lineno))
             if h.name:
-                s.env[h.name] = ('exc', names)
-            results.extend(self.block(h.body, s))
+                e.env[h.name] = ('exc', names)
+            results.extend(self.block(h.body, e))
         if n.finalbody:
             fin = []
             for s, o in results:
